@@ -3,23 +3,37 @@ import itertools, re
 from vlib import common as C, simlib
 
 MANIFEST = {
-    "text": "Lean theorems about M, the transcription of the client side of coap_dispatch/handle_response and of the message layer "
-            "(send queue, delay queue, NSTART slot, retransmission, cancel-by-token): for every client state with nothing held back, a "
-            "CON response is answered by exactly one ACK/RST (again for a duplicate, which is not re-delivered), FAIL yields a Reset, a NON "
-            "response is delivered once per datagram, a response takes the request off the retransmission queue; and, by a phase "
-            "invariant over ALL sequences of timer steps and arrivals of copies of the empty ACK and of the server's response message, a "
-            "CON request sent from a quiet session concludes at most once and, once the client is quiet, exactly once unless no copy of "
-            "the response ever arrived (exactly_once_partial). M (client, server personalities, network, event loop) is tied to the compiled "
-            "code by exact equality of whole traces (every datagram, handler call, NACK, with virtual timestamps) of a real client and a "
-            "real server context on generated loss/duplication/delay schedules; the property's clauses are also checked directly on the "
-            "implementation's trace.",
+    "text": "Lean theorems about M, the transcription of the client side of coap_dispatch/handle_response, of the message layer "
+            "(send queue, delay queue, NSTART slot, retransmission, cancel-by-token) and of the scripted server personalities: for every "
+            "client state with nothing held back, a CON response is answered by exactly one ACK/RST (again for a duplicate, which is not "
+            "re-delivered), FAIL yields a Reset, a NON response is delivered once per datagram, a response takes the request off the "
+            "retransmission queue; over WHOLE runs under D1 (any datagrams arriving at any time) the ACK/RST datagrams sent are in order "
+            "exactly the CON responses received (plus FAILed NONs) and the handler calls are exactly those the single-slot filter lets "
+            "through (run_con_responses_acked, run_con_response_acked_at, run_duplicates_not_redelivered); by a phase invariant over ALL "
+            "sequences of timer steps and arrivals of copies of the empty ACK and of the server's response message, a CON request sent "
+            "from a quiet session concludes at most once and, once the client is quiet, exactly once unless no copy of the response ever "
+            "arrived (exactly_once_partial); liveness: under the fairness hypothesis (a response copy is delivered, or no empty ACK is, "
+            "so MAX_RETRANSMIT is exhausted) and a running clock the request HAS concluded, for every schedule (never_neither), exactly "
+            "once when no copy arrives after the give-up (concludes_when_quiet_partial); "
+            "the piggybacking and the de-duplicating server personalities answer all copies of a request, under every interleaving, with "
+            "ONE response message (server_one_response_message); client, network (any loss / duplication / delay of what the peer "
+            "transmitted) and server composed in a closed loop: exactly_once_closed_loop_partial, and for piggybacked responses with "
+            "delays < ACK_TIMEOUT the timed argument that no copy arrives after the give-up is proved, giving exactly-once without "
+            "side conditions, and 'never neither' whenever the client is quiet since such a server sends no empty ACK "
+            "(exactly_once_piggybacked, exactly_once_piggybacked_default, exactly_once_piggybacked_quiet). M (client, server personalities, network, "
+            "event loop) is tied to the compiled code by exact equality of whole traces (every datagram, handler call, NACK, with "
+            "virtual timestamps) of a real client and a real server context on generated loss/duplication/delay schedules; the "
+            "property's clauses are also checked directly on the implementation's trace.",
     "note": "PARTIAL: open finding unsolicited_response_delivered - the client keeps no record of outstanding tokens, so a response "
             "arriving after the NACK, or a second response message from a server that processed a retransmitted request again, is "
-            "delivered again; the theorem's hypotheses exclude exactly that (one response message per request, no copy after give-up). "
-            "Liveness carries D5 (separate response lost on every transmission after the empty ACK arrived: the request stays open). "
-            "The lemma that the server personalities emit one response message is not proved in Lean (checked by the oracle per run). "
-            "Trusted: Lean kernel (+ propext, Classical.choice, Quot.sound), harness/exchange.c + sim_core.h, generators and oracle, "
-            "the hand transcription M (checked against the compiled code on the schedules run only).",
+            "delivered again; the theorems' hypotheses exclude exactly that: the server piggybacks or de-duplicates (then 'one response "
+            "message' is a theorem), and for SEPARATE responses no copy arrives after the give-up (SysNoLate / NoLate: does not follow "
+            "from delays < ACK_TIMEOUT because the server retransmits its response long after the client's last request copy; for "
+            "piggybacked responses it is proved). Liveness (never_neither) is full strength; its explicit fairness hypothesis excludes exactly D5 (separate "
+            "response lost on every transmission after the empty ACK arrived: the request stays open, d5_neither_witness). The closed loop of the "
+            "theorems (Sys: logs of transmitted datagrams, any copy deliverable) is an abstraction of the harness event loop Sim.run, "
+            "not proved equal to it. Trusted: Lean kernel (+ propext, Classical.choice, Quot.sound), harness/exchange.c + sim_core.h, "
+            "generators and oracle, the hand transcription M (checked against the compiled code on the schedules run only).",
     "design_ref": "DESIGN.md §4 C07, design/C07.md",
 }
 LEAN_MODULES = ["CoapVerif.Props.C07"]
@@ -27,7 +41,12 @@ NAMESPACE = "Coap.C07"
 REQUIRED_THEOREMS = ["exactly_once_partial", "response_stops_retransmission", "con_response_always_acked",
                      "fail_verdict_resets", "non_delivered_once_per_datagram", "at_most_one_conclusion",
                      "duplicate_not_redelivered", "response_ends_exchange", "late_response_after_nack_witness",
-                     "second_response_witness"]
+                     "second_response_witness",
+                     # liveness, server side condition D2, closed loop + timed argument, whole runs
+                     "never_neither", "concludes_when_quiet_partial", "d5_neither_witness", "server_one_response_message",
+                     "server_without_dedup_witness", "exactly_once_closed_loop_partial", "exactly_once_piggybacked",
+                     "exactly_once_piggybacked_default", "exactly_once_piggybacked_quiet", "run_con_responses_acked", "run_con_response_acked_at",
+                     "run_duplicates_not_redelivered"]
 RULE = ("schedules for harness/exchange.c (real client + real server context, virtual clock, scripted network): server personality "
         "(piggyback, coap_async delayed / triggered, application-delayed separate CON / NON, each with and without application-level "
         "request de-duplication) x fate of every datagram in order of transmission (deliver after d ms / drop / duplicate) x scripted "
